@@ -729,6 +729,100 @@ theorem one_template_per_repeat (root : Str) (its : List Item) (p : Str → Bool
     tmplCount p (instanceOf root its) = repCountL p its := by
   simp [instanceOf, tmplCount, templates_top]
 
+/-! ### the pipeline's attributes satisfy the specification (no hypothesis beyond "the pipeline answers") -/
+
+theorem startsWith_split : ∀ (a p : Str), startsWith a p = true → p ++ a.drop p.length = a
+  | _, [] => by intro _; simp
+  | [], _ :: _ => by intro h; simp [startsWith] at h
+  | x :: xs, y :: ys => by
+    intro h
+    simp only [startsWith, Bool.and_eq_true, beq_iff_eq] at h
+    simp [h.1, startsWith_split xs ys h.2]
+
+theorem any_rowCtlCells (r : Cells) (x : Str) :
+    ((rowCtlCells r).any fun kv => kv.1 = x) =
+      r.any fun kv => startsWith kv.1 (k!"control::") && decide (kv.1.drop 9 = x) := by
+  induction r with
+  | nil => rfl
+  | cons kv rest ih =>
+    by_cases hs : startsWith kv.1 (k!"control::") = true
+    · have hc : rowCtlCells (kv :: rest) = (kv.1.drop 9, kv.2) :: rowCtlCells rest := by
+        simp [rowCtlCells, hs]
+      rw [hc]; simp only [List.any_cons, hs, Bool.true_and, ih]
+    · have hf : startsWith kv.1 (k!"control::") = false := by simpa using hs
+      have hc : rowCtlCells (kv :: rest) = rowCtlCells rest := by simp [rowCtlCells, hf]
+      rw [hc]; simp only [List.any_cons, hf, Bool.false_and, Bool.false_or, ih]
+
+/-- distinct columns give distinct keys of the row's control dict -/
+theorem keysNodupB_rowCtlCells (r : Cells) (h : keysNodupB r = true) : keysNodupB (rowCtlCells r) = true := by
+  induction r with
+  | nil => rfl
+  | cons kv rest ih =>
+    obtain ⟨k, v⟩ := kv
+    simp only [keysNodupB, Bool.and_eq_true, Bool.not_eq_true'] at h
+    have ihr := ih h.2
+    by_cases hs : startsWith k (k!"control::") = true
+    · have hc : rowCtlCells ((k, v) :: rest) = (k.drop 9, v) :: rowCtlCells rest := by
+        simp [rowCtlCells, hs]
+      rw [hc]
+      simp only [keysNodupB, Bool.and_eq_true, Bool.not_eq_true', ihr, and_true, any_rowCtlCells]
+      rw [List.any_eq_false]
+      intro kv' hm
+      have hne : ¬ kv'.1 = k := by
+        have := List.any_eq_false.mp h.1 kv' hm
+        simpa using this
+      intro hcontra
+      simp only [Bool.and_eq_true, decide_eq_true_eq] at hcontra
+      have e1 := startsWith_split kv'.1 _ hcontra.1
+      have e2 := startsWith_split k _ hs
+      apply hne
+      rw [← e1, ← e2]
+      simp only [List.length_cons, List.length_nil] at *
+      rw [hcontra.2]
+    · have hc : rowCtlCells ((k, v) :: rest) = rowCtlCells rest := by
+        have : startsWith k (k!"control::") = false := by simpa using hs
+        simp [rowCtlCells, this]
+      rw [hc]; exact ihr
+
+theorem rowGuards_nodup (r0 r : Cells) (h : rowGuards r0 r = .ok ()) : keysNodupB r = true := by
+  unfold rowGuards at h
+  split at h
+  · cases h
+  · rename_i hn
+    simp only [Bool.not_eq_true', Bool.and_eq_false_iff, not_or, Bool.not_eq_false] at hn
+    simpa using hn.2
+
+theorem rowControls_guards (lists : List Str) (n : Nat) (r0 : Cells) (cs : List Controls.Ctl)
+    (h : rowControls lists n r0 = .ok cs) : keysNodupB (prep r0).1 = true := by
+  unfold rowControls at h
+  simp only [] at h
+  split at h
+  · cases h
+  · rename_i u hu
+    cases u
+    exact rowGuards_nodup _ _ hu
+
+/-- **What the pipeline puts on a visible question's control is what the property dictates**: whenever the
+    attribute pipeline answers for a row that classifies as a non-select question with a body control, the first
+    control it emits is that question's element with attributes `a` such that, for every key `k`,
+    `lookup k a = Spec.bodyAttr …` — the parameter-derived value, else the row's `control::k` cell, else the type
+    table's entry.  The side conditions of `body_attrs_of_row` (distinct columns, distinct parameter keys) are
+    derived from the pipeline's own guards, not assumed. -/
+theorem pipeline_attrs_spec (lists : List Str) (n : Nat) (r0 : Cells) (cs : List Controls.Ctl)
+    (d : QData) (other : Option QData)
+    (h : rowControls lists n r0 = .ok cs)
+    (hk : classify lists n (prep r0).1 = .row (.q d other)) (hc : d.control = true)
+    (hs : matchSelect ((get (prep r0).1 "type").getD []) = none) :
+    ∃ ps a rest, cs = (d.tag, a) :: rest ∧
+      ∀ k, lookup k a = Spec.bodyAttr ((get (prep r0).1 "type").getD [])
+        ((typeEntry ((get (prep r0).1 "type").getD [])).getD []) (prep r0).1 ps k := by
+  obtain ⟨k', ps, hk', hp, _, hout⟩ := rowControls_out lists n r0 cs h
+  rw [hk] at hk'; injection hk' with hk'; subst hk'
+  have hr := keysNodupB_rowCtlCells _ (rowControls_guards lists n r0 cs h)
+  refine ⟨ps, qAttrs _ _ (prep r0).1 ps, optCtl other, ?_, fun k => body_attrs_of_row _ _ _ _ k hr hp⟩
+  rw [hout]
+  simp only [emitOut, hc, if_true, hs, List.cons_append, List.nil_append]
+
 /-! ### rows marked disabled produce nothing; the count companion exists iff the cell is not a bare reference -/
 
 /-- **A row marked disabled is skipped, whatever kind of row it is** (question, select, audit, begin / end, a row
@@ -850,5 +944,11 @@ example : (countHelper (k!"r") [(k!"control::jr:count", k!"${n}")]).isSome = fal
     (countHelper (k!"r") [(k!"control::jr:count", k!"${n} + 1")]).isSome = true ∧
     (countHelper (k!"r") [(k!"control::jr:count", k!"${n} * ${m}")]).isSome = true ∧
     (countHelper (k!"r") [(k!"control::jr:count", k!"3")]).isSome = true := by decide +kernel
+
+-- pipeline_attrs_spec applies to the first row of `exSheet` (text, appearance multiline, parameters rows=3)
+example : (match rowControls [k!"yn"] 2 exSheet.head!, classify [k!"yn"] 2 (prep exSheet.head!).1 with
+    | .ok cs, .row (.q d none) => d.control && cs.length == 1 &&
+        matchSelect ((get (prep exSheet.head!).1 "type").getD []) == none
+    | _, _ => false) = true := by decide +kernel
 
 end Pyxv.C04
